@@ -459,6 +459,9 @@ func genC10(r *simrt.Rand, tier string) json.RawMessage {
 	if r.Bool(0.6) {
 		k := r.Range(1, len(c.Ops))
 		ops := append([]W3Op(nil), c.Ops[:k]...)
+		if r.Bool(0.6) {
+			ops = append(ops, W3Op{K: "svcread", Node: r.Range(1, c.Nodes), A: r.Intn(2)})
+		}
 		if r.Bool(0.5) {
 			ops = append(ops, W3Op{K: "wait", Ms: 10500}) // lets the zero group compact its log (threshold knob)
 			c.Cfg.SnapshotOffset = []int64{1, 2}[r.Intn(2)]
